@@ -900,15 +900,17 @@ int FIO_checkFilenameCollisions(const char** filenameTable, unsigned nbFiles) {
 
     qsort((void*)filenameTableSorted, nbFiles, sizeof(char*), UTIL_compareStr);
     prevElem = filenameTableSorted[0];
-    for (u = 1; u < nbFiles; ++u) {
-        if (strcmp(prevElem, filenameTableSorted[u]) == 0) {
-            DISPLAYLEVEL(2, "WARNING: Two files have same filename: %s\n", prevElem);
+    {   int nbCollisions = 0;
+        for (u = 1; u < nbFiles; ++u) {
+            if (strcmp(prevElem, filenameTableSorted[u]) == 0) {
+                DISPLAYLEVEL(2, "WARNING: Two files have same filename: %s\n", prevElem);
+                nbCollisions++;
+            }
+            prevElem = filenameTableSorted[u];
         }
-        prevElem = filenameTableSorted[u];
+        free((void*)filenameTableSorted);
+        return nbCollisions != 0;
     }
-
-    free((void*)filenameTableSorted);
-    return 0;
 }
 
 static const char*
@@ -2280,6 +2282,14 @@ int FIO_compressMultipleFilenames(FIO_ctx_t* const fCtx,
                             strerror(errno), outFileName);
         }
     } else {
+        /* in a flat output directory, sources of the same name overwrite each other's output :
+         * with --rm only the last one would survive */
+        if (outDirName && prefs->removeSrcFile && fCtx->nbFilesTotal > 1
+          && FIO_checkFilenameCollisions(inFileNamesTable, (unsigned)fCtx->nbFilesTotal)) {
+            DISPLAYLEVEL(1, "zstd: several sources would be written to the same file of %s : refusing to proceed with --rm \n", outDirName);
+            FIO_freeCResources(&ress);
+            return 1;
+        }
         if (outMirroredRootDirName)
             UTIL_mirrorSourceFilesDirectories(inFileNamesTable, (unsigned)fCtx->nbFilesTotal, outMirroredRootDirName);
 
@@ -3137,6 +3147,13 @@ FIO_decompressMultipleFilenames(FIO_ctx_t* const fCtx,
             EXM_THROW(72, "Write error : %s : cannot properly close output file",
                         strerror(errno));
     } else {
+        /* same rule as compression : with --rm, sources that share an output file are refused */
+        if (outDirName && prefs->removeSrcFile && fCtx->nbFilesTotal > 1
+          && FIO_checkFilenameCollisions(srcNamesTable, (unsigned)fCtx->nbFilesTotal)) {
+            DISPLAYLEVEL(1, "zstd: several sources would be written to the same file of %s : refusing to proceed with --rm \n", outDirName);
+            FIO_freeDResources(ress);
+            return 1;
+        }
         if (outMirroredRootDirName)
             UTIL_mirrorSourceFilesDirectories(srcNamesTable, (unsigned)fCtx->nbFilesTotal, outMirroredRootDirName);
 
